@@ -373,6 +373,12 @@ static int32_t nextUpdateTest(const char *c, int32 timeType)
     psBrokenDownTime_t nextTime;
     psBrokenDownTime_t nextTimeLinger;
 
+    if (c == NULL)
+    {
+        /* The CRL did not have the (optional) nextUpdate field. */
+        return -1;
+    }
+
     err = psGetBrokenDownGMTime(&timeNow, 0);
     if (err != PS_SUCCESS)
     {
